@@ -1,7 +1,8 @@
 (* C04 -- cancel() suppresses the whole trace and nothing else.
    Only pinned statements, closed by [exact lemma], with Print Assumptions. *)
 From Coq Require Import List NArith Bool.
-From FT Require Import Model.Base Model.Records Model.Collector Proofs.CollectorProofs.
+From FT Require Import Model.Base Model.Local Model.Records Model.Spsc Model.Collector Model.System
+     Proofs.CollectorProofs Proofs.CancelProofs.
 Import ListNotations.
 Open Scope N_scope.
 
@@ -30,7 +31,33 @@ Theorem C04_default_cancel_noop :
     process_owned conv false am (mkBatch (b_start b) [] (b_commit b) (b_submit b)).
 Proof. exact default_cancel_noop. Qed.
 
+(* the call: cancel() on a root span yields exactly one command, the DropCollect of its own
+   collect id, sent with force_send (so it is queued, never dropped, when the thread's queue is
+   full: C09); on a no-op span or on any span that is not a root it yields no command and
+   changes no state; spans created from parents never carry a collect id *)
+Theorem C04_cancel_root_is_one_forced_drop :
+  forall s th e h sp c,
+    get_span s h = Some (Some sp) -> sp_cid sp = Some c ->
+    exec_call s th e (KCancel h) = COk s th e [(true, CDrop c)] RUnit.
+Proof. exact cancel_root_is_one_forced_drop. Qed.
+
+Theorem C04_cancel_non_root_changes_nothing :
+  forall s th e h,
+    (get_span s h = Some None \/ exists sp, get_span s h = Some (Some sp) /\ sp_cid sp = None) ->
+    exec_call s th e (KCancel h) = COk s th e [] RUnit.
+Proof. exact cancel_non_root_changes_nothing. Qed.
+
+Theorem C04_children_carry_no_collect_id :
+  forall s th e c s' th' e' out r h sp,
+    (exists name p, c = KChild h name p) \/ (exists name ps, c = KChildMany h name ps) \/ (exists name, c = KChildLocal h name) ->
+    exec_call s th e c = COk s' th' e' out r ->
+    alookup h (s_spans s') = Some (Some sp) -> sp_cid sp = None.
+Proof. exact child_calls_use_no_collect_id. Qed.
+
 Print Assumptions C04_cancel_suppresses.
 Print Assumptions C04_cancel_deactivates.
 Print Assumptions C04_cancelled_stays_silent.
 Print Assumptions C04_default_cancel_noop.
+Print Assumptions C04_cancel_root_is_one_forced_drop.
+Print Assumptions C04_cancel_non_root_changes_nothing.
+Print Assumptions C04_children_carry_no_collect_id.
